@@ -725,6 +725,28 @@ impl<C: CellType> Expr<C> {
     }
 }
 
+#[cfg(feature = "verif")]
+impl<C: CellType> Expr<C> {
+    /// Verification hook: return the internal representation of the expression.
+    pub fn verif_parts(&self) -> Vec<(C, Vec<isize>)> {
+        self.parts
+            .iter()
+            .map(|p| (p.coef, p.vars.iter().copied().collect()))
+            .collect()
+    }
+
+    /// Verification hook: build an expression directly from the given parts.
+    pub fn verif_from_parts(parts: Vec<(C, Vec<isize>)>) -> Self {
+        let mut res = SmallVec::new();
+        for (coef, vars) in parts {
+            let mut vs = SmallVec::new();
+            vs.extend(vars.into_iter());
+            res.push(ExprPart { coef, vars: vs });
+        }
+        Expr { parts: res }
+    }
+}
+
 impl<C: CellType> Instr<C> {
     /// Create an instruction equivalent to loading the value `val` into the
     /// variable `var`.
